@@ -229,10 +229,10 @@ def run(ctx):
     lp, nfiles = corpus_list(ctx)
     ctx.extra["real_files"] = nfiles
     jobs = [
-        ("c19", ["--mode", "random", "--n", 100 if q else 3000], "random.ndjson"),
+        ("c19", ["--mode", "random", "--n", 80 if q else 3000], "random.ndjson"),
         ("c19", ["--mode", "enum", "--maxsz", 1 if q else 3], "enum.ndjson"),
         ("c19", ["--mode", "files", "--list", lp], "files.ndjson"),
-        ("c19", ["--mode", "link", "--n", 8 if q else 300, "--dir", os.path.join(ctx.work, "link")], "link.ndjson"),
+        ("c19", ["--mode", "link", "--n", 6 if q else 300, "--dir", os.path.join(ctx.work, "link")], "link.ndjson"),
     ]
     paths = ctx.record_many(jobs, parallel=4)
     validate(ctx, paths, 2 if q else 8)
